@@ -566,6 +566,7 @@ type JOp struct {
 	Host     string
 	Path     string    `json:",omitempty"` // request path
 	Cookies  []JCookie `json:",omitempty"`
+	RelGot   bool      `json:",omitempty"` // get: the caller releases the returned cookies (documented as safe)
 }
 
 type JarCase struct {
@@ -780,6 +781,27 @@ func checkJar(c JarCase) vk.Verdict {
 				gs = append(gs, string(ck.Key())+"="+string(ck.Value()))
 			}
 			sort.Strings(gs)
+			if op.RelGot {
+				// "The CookieJar keeps its own copies of cookies, so it is safe to release the returned cookies after use":
+				// the caller does, and the pooled objects are taken and used by somebody else
+				for _, ck := range got {
+					fasthttp.ReleaseCookie(ck)
+				}
+				var others []*fasthttp.Cookie
+				for j := 0; j < len(got)+2; j++ {
+					o := fasthttp.AcquireCookie()
+					o.SetKey("k1")
+					o.SetValue("somebody-elses")
+					o.SetPath("/")
+					others = append(others, o)
+				}
+				defer func() {
+					for _, o := range others {
+						fasthttp.ReleaseCookie(o)
+					}
+				}()
+				v.Classes = append(v.Classes, "returned-cookies-released")
+			}
 			// expectation with a tolerant band for short-lived cookies that are neither surely live nor surely expired
 			var must, may []string
 			now := time.Now()
@@ -921,6 +943,7 @@ func genJar(t *rapid.T) JarCase {
 			op.Kind = "release"
 		default:
 			op.Kind = "get"
+			op.RelGot = rapid.IntRange(0, 2).Draw(t, "relgot") == 0
 		}
 		if op.Kind == "set" || op.Kind == "parse" {
 			nc := rapid.IntRange(1, 3).Draw(t, "nc")
